@@ -52,7 +52,7 @@ Allowed(fmt, slot, c) ==
 Reserved(fmt) == IF fmt \in {"latex", "beamer", "memoir"} THEN {"\\", "{", "}", "$", "%", "&", "#", "_", "^", "~"} ELSE {"&", "<", ">", "\""}
 
 \* ---- block documents with numbered words ----------------------------------------------------------------------------
-Kinds == {"para", "heading", "h1", "h3", "h4", "list", "quote", "table", "note", "nested", "code", "link", "emph"}
+Kinds == {"para", "heading", "h1", "h3", "h4", "list", "quote", "table", "note", "nested", "code", "codel", "link", "emph"}
 Need(k) == IF k \in {"list", "table", "nested"} THEN 2 ELSE 1            \* words a block shows
 RECURSIVE Wd(_), BlockSrc(_, _), DocSrc(_, _), WordsOf(_, _, _), NoteWords(_, _)
 Wd(i) == "W" \o ToString(i) \o "W"
@@ -60,7 +60,7 @@ BlockSrc(k, n) ==
   CASE k = "para" -> Wd(n) \o " text\n\n" [] k = "heading" -> "## " \o Wd(n) \o "\n\n" [] k = "h1" -> "# " \o Wd(n) \o "\n\n" [] k = "h3" -> "### " \o Wd(n) \o "\n\n" [] k = "h4" -> "#### " \o Wd(n) \o "\n\n"
     [] k = "nested" -> "call[^f" \o ToString(n) \o "] after\n\n[^f" \o ToString(n) \o "]: " \o Wd(n) \o " inner[^g" \o ToString(n) \o "]\n\n[^g" \o ToString(n) \o "]: " \o Wd(n + 1) \o "\n\n" [] k = "list" -> "* " \o Wd(n) \o "\n* " \o Wd(n + 1) \o "\n\n"
     [] k = "quote" -> "> " \o Wd(n) \o "\n\n" [] k = "table" -> "| " \o Wd(n) \o " |\n|---|\n| " \o Wd(n + 1) \o " |\n\n"
-    [] k = "note" -> "call[^f" \o ToString(n) \o "] after\n\n[^f" \o ToString(n) \o "]: " \o Wd(n) \o "\n\n" [] k = "code" -> "```\n" \o Wd(n) \o "\n```\n\n"
+    [] k = "note" -> "call[^f" \o ToString(n) \o "] after\n\n[^f" \o ToString(n) \o "]: " \o Wd(n) \o "\n\n" [] k = "code" -> "```\n" \o Wd(n) \o "\n```\n\n" [] k = "codel" -> "```python\n" \o Wd(n) \o "\n```\n\n"
     [] k = "link" -> "[" \o Wd(n) \o "](http://u.rl/)\n\n" [] OTHER -> "*" \o Wd(n) \o "* plain\n\n"
 DocSrc(ks, n) == IF ks = <<>> THEN "" ELSE BlockSrc(Head(ks), n) \o DocSrc(Tail(ks), n + Need(Head(ks)))
 \* order in which a format shows the words: notes are moved to a list at the end in HTML, stay at the call in LaTeX and OpenDocument, and in source order in OPML
